@@ -1154,6 +1154,7 @@ def run(ck):
                 e["count"] += 1
 
     # ---- pRRT lock-step replay (round 10) ---------------------------------------------------------
+    trace_failures = {}
     for res in trace_results:
         kind, what, info = judge_trace(res["op"], res)
         P = parse_trace_line(res["op"])
@@ -1178,16 +1179,26 @@ def run(ck):
         ck.sample({"build": "plain", "op": res["op"][:160], "result": (res["out"][-1] if res["out"] else "<none>")[:200]}, limit=10)
         if kind is None:
             continue
+        # one report per class of failure (message with the numbers taken out), carried by the run with the shortest log
+        cls = (kind, re.sub(r"[-+]?\d[\d.e+-]*", "#", (what or "").split(":", 1)[-1])[:80])
+        cur = trace_failures.get(cls)
+        if cur is None or len(res["events"]) < len(cur[0]["events"]):
+            trace_failures[cls] = (res, kind, what, info, (cur[4] if cur else 0) + 1)
+        else:
+            trace_failures[cls] = cur[:4] + (cur[4] + 1,)
+    for (res, kind, what, info, nfail) in trace_failures.values():
         rec = {"engine": "conc", "kind": "prrt-trace-" + kind, "op": "prrt"}
         d = info.get("first_diff")
         events = res["events"][:(d + 2 if d is not None else 0)]
         ck.report(rec, script=res["script"], engine="conc",
                   expected=("the recorded run is an execution of the Lean model (drv_conc prints the log back)" if kind == "correspondence"
                             else "spec oracle of the recorded pRRT run (judge_trace)"),
-                  observed={"what": what, "events_up_to_the_difference": events if len(events) <= 3000 else events[-50:],
+                  observed={"what": what, "runs_failing_this_way": nfail,
+                            "events_up_to_the_difference": events if len(events) <= 3000 else events[-50:],
+                            "log_head": res["events"][:12],
                             "summary": res["out"][-1] if res["out"] else None, "stderr_tail": res["err"][-1500:]},
                   obligation=("correspondence: pRRT.cpp threadSolve/solve vs PStep.apply/report" if kind == "correspondence" else None))
-        ck.log("pRRT trace %s failure (%s): %s" % (kind, res["op"][:60], (what or "")[:300]))
+        ck.log("pRRT trace %s failure in %d run(s), smallest (%s): %s" % (kind, nfail, res["op"][:60], (what or "")[:300]))
 
     # ---- decide -------------------------------------------------------------------------------
     reported_members = set()
